@@ -163,4 +163,6 @@ HARMLESS = {"e-acti-lower", "i-text-strip", "i-send-drain-once", "i-serial-read-
             # equivalent on well-formed input: priorities are 0..7, the plain format's length equals its token count,
             # the clients hand decode_usb exactly 20 bytes, connect() tests CLOSED again inside its retry loop
             "d-acti-prio-mask", "d-basic-length", "d-usb-len20", "i-connect-no-closed-check"}
-HARMLESS |= {"e2-acti-pgn-width"}
+# (a continuation frame never matches the initial sequence counter -1; Yacht Devices lines carry at most 8 data
+#  bytes; close() cancels the receive task, so its loop condition is never consulted after CLOSED)
+HARMLESS |= {"e2-acti-pgn-width", "d2-fast-no-first-check", "d2-yd-reverse", "i2-recv-loop-forever"}
